@@ -68,8 +68,13 @@ static int decode_pattern(const cstream *s,OpusDecoder *d,OpusDecoder *clone,con
           else { vc_count("fec_without_lbrr",1); if(memcmp(frame,out2,sizeof(float)*fs*ch)==0) vc_count("fec_without_lbrr_equals_plc",1); else vc_count("fec_without_lbrr_differs_from_plc",1); /* 'behaves like concealment': bounded like concealment (checked above); bit equality with a cloned decoder's concealment is reported, not required */ } }
         lossms+=Dms*(big?2:1); last_loss=i; continue; }
       /* concealment, whole or in pieces */
-      int piece= shape==1?(Fs/400)*(1<<(i%4)):fs; if(piece>fs) piece=fs; int done=0; while(done<fs){ int w=fs-done<piece?fs-done:piece; int rc=opus_decode_float(d,NULL,0,out+(size_t)done*ch,w,0); vc_count("plc_calls",1); if(rc!=w){ vc_viol("plc:duration","concealment call returned %d for frame_size %d (%s)",rc,w,ctx); return 1; } opus_int32 lpd=0; opus_decoder_ctl(d,OPUS_GET_LAST_PACKET_DURATION(&lpd)); if(lpd!=w){ vc_viol("plc:last-duration","last packet duration %d after concealing %d samples (%s)",lpd,w,ctx); return 1; } done+=w; }
-      if(check_concealed(out,fs,ch,&q,lossms,Fs,"concealment",ctx)) return 1; lossms+=Dms; last_loss=i; continue; }
+      /* call shapes: whole packet; pieces of 2.5..20 ms incl. 7.5 / 12.5 / 15 / 17.5 ms (served by the decoder in several internal steps); several lost
+         packets concealed by one call of up to 120 ms.  The buffer is pre-filled with NaN so that any sample the call does not write is seen. */
+      int merge=1; if(shape==0&&(i&1)==0){ while(merge<3&&i+merge<s->n&&lost[i+merge]&&(merge+1)*fs<=Fs/25*3) merge++; }
+      int total=fs*merge; int piece= shape==1?(Fs/400)*(1+(i*7+3)%8):total; if(piece>total) piece=total; int done=0; for(int k=0;k<total*ch;k++) out[k]=NAN;
+      if(merge>1) vc_count("plc_calls_spanning_several_packets",1);
+      while(done<total){ int w=total-done<piece?total-done:piece; int rc=opus_decode_float(d,NULL,0,out+(size_t)done*ch,w,0); vc_count("plc_calls",1); if(rc!=w){ vc_viol("plc:duration","concealment call returned %d for frame_size %d (%s)",rc,w,ctx); return 1; } opus_int32 lpd=0; opus_decoder_ctl(d,OPUS_GET_LAST_PACKET_DURATION(&lpd)); if(lpd!=w){ vc_viol("plc:last-duration","last packet duration %d after concealing %d samples (%s)",lpd,w,ctx); return 1; } done+=w; }
+      if(check_concealed(out,total,ch,&q,lossms,Fs,"concealment",ctx)) return 1; lossms+=Dms*merge; last_loss=i+merge-1; i+=merge-1; continue; }
     int rc=opus_decode_float(d,s->pkt[i],s->len[i],out,fs,0); opus_uint32 fr=0; opus_decoder_ctl(d,OPUS_GET_FINAL_RANGE(&fr)); vc_count("received_calls",1);
     if(rc!=fs){ vc_viol("received:duration","received packet %d returned %d expected %d (%s)",i,rc,fs,ctx); return 1; }
     if(fr!=s->rng[i]){ vc_viol("received:final-range","packet %d after losses decodes with final range %08x, encoder had %08x (%s)",i,fr,s->rng[i],ctx); return 1; }
